@@ -20,14 +20,14 @@ import (
 // (wrong values), along axis 2 of (1,2,1,1) they index out of range (panic). ReduceMax/ReduceMin handed user
 // axes straight to Dense.Max/Min.
 //
-//   R34a  who-may-call: a gorgonia reduction (Max, Min, Sum as method or function) called with an axis, or
-//         taken as a function value, appears in library code only inside ops.ReduceAxes, respectively as the
-//         third argument of a call to it.
-//   R34b  the driver's contract, by a finite table over shapes of rank 1..4 and axis lists (unsorted, with a
-//         duplicate): every reduction it performs is on a tensor of rank 3 along axis 1, the views are
-//         (prod(shape[:a]), shape[a], prod(shape[a+1:])) for the distinct axes in descending order, no
-//         axes / all axes is one reduction without axes, and the result has the input's shape without the
-//         reduced axes. The argument tensor keeps its shape.
+//	R34a  who-may-call: a gorgonia reduction (Max, Min, Sum as method or function) called with an axis, or
+//	      taken as a function value, appears in library code only inside ops.ReduceAxes, respectively as the
+//	      third argument of a call to it.
+//	R34b  the driver's contract, by a finite table over shapes of rank 1..4 and axis lists (unsorted, with a
+//	      duplicate): every reduction it performs is on a tensor of rank 3 along axis 1, the views are
+//	      (prod(shape[:a]), shape[a], prod(shape[a+1:])) for the distinct axes in descending order, no
+//	      axes / all axes is one reduction without axes, and the result has the input's shape without the
+//	      reduced axes. The argument tensor keeps its shape.
 func ruleReduceDriver(c *Ctx, prop string) {
 	var driver *ssa.Function
 	for _, f := range c.libFns {
@@ -246,10 +246,11 @@ func typesPointerTo(t types.Type) types.Type { return types.NewPointer(t) }
 // 0 at every position where ONNX allows it (position < input rank), one -1 at every position, both, and the
 // invalid requests: two -1, a product that does not match, a 0 beyond the input's rank. The partial
 // interpreter binds inputs[1] to the target list and inputs[0] to the shape and reports
-//   refused      a valid request runs into a decided error branch / panic,
-//   wrong-shape  gorgonia's Reshape is reached with another list than the ONNX result,
-//   accepted     an invalid request reaches gorgonia's Reshape with a list it accepts (all entries > 0 and the
-//                right product).
+//
+//	refused      a valid request runs into a decided error branch / panic,
+//	wrong-shape  gorgonia's Reshape is reached with another list than the ONNX result,
+//	accepted     an invalid request reaches gorgonia's Reshape with a list it accepts (all entries > 0 and the
+//	             right product).
 func ruleReshapeTable(c *Ctx, prop string) {
 	oi := c.opByName("Reshape")
 	if oi == nil {
@@ -377,10 +378,12 @@ func ruleReshapeTable(c *Ctx, prop string) {
 // ordered pair of shapes of rank 0..3 with extents in {1,2,3,4} (rank 4 in the thorough tier), with tensors
 // modelled by their live shape and gorgonia's Clone / Reshape / Repeat by their shape contracts (Repeat
 // multiplies the extent of the axis). It reports
-//   tiled      Repeat applied to an axis whose extent is not 1 (elements tiled instead of a refusal),
-//   wrong      compatible shapes: an error, or result shapes other than the broadcast shape,
-//   accepted   incompatible shapes: no error,
-//   modified   the shape of a source operand changed.
+//
+//	tiled      Repeat applied to an axis whose extent is not 1 (elements tiled instead of a refusal),
+//	wrong      compatible shapes: an error, or result shapes other than the broadcast shape,
+//	accepted   incompatible shapes: no error,
+//	modified   the shape of a source operand changed.
+//
 // What it does not decide: that Repeat places the elements as ONNX prescribes (gorgonia's contract).
 func ruleBroadcastTable(c *Ctx, prop string) {
 	var multi, uni *ssa.Function
@@ -657,11 +660,17 @@ func (c *Ctx) applyTableOverrides(from int) {
 			table = multi
 		case strings.HasPrefix(o.Key, "R20:unidir:"):
 			table = uni
+		case o.Key == "R5:anchor:applyOp", o.Key == "R5:M1", o.Key == "R5:M2", o.Key == "R5:M3", o.Key == "R5:M4", o.Key == "R5:M5",
+			o.Key == "R5:M6", o.Key == "R5:M7", o.Key == "R5:M8", o.Key == "R5:M13",
+			o.Key == "R17:V1", o.Key == "R17:V2", o.Key == "R17:V3", o.Key == "R17:V4", o.Key == "R17:V5", o.Key == "R17:V7", o.Key == "R17:V9":
+			table = c.tableCovered["table:run"]
+		case o.Key == "R5:M10":
+			table = c.tableCovered["table:opset"]
 		}
 		if table == "" {
 			continue
 		}
 		o.Status = StNote
-		o.Why = "structural pattern not recognised (" + o.Why + "); the clause is decided by the finite table " + table + ", which walked this code for every shape pair and found it right"
+		o.Why = "structural pattern not recognised (" + o.Why + "); the clause is decided by the finite table " + table + ", which walked this code for every cell and found it right"
 	}
 }
